@@ -22,9 +22,12 @@ try:
     for m in muts:
         path=os.path.join(wt,m['file'])
         src=open(path).read()
-        if m['old'] not in src:
+        edits=m.get('edits') or [[m['old'],m['new']]]
+        if any(o not in src for o,_ in edits):
             print(f"SKIP  {m['prop']} {m['name']}: pattern not found"); bad+=1; continue
-        open(path,'w').write(src.replace(m['old'],m['new'],1))
+        new=src
+        for o,n in edits: new=new.replace(o,n,1)
+        open(path,'w').write(new)
         b=sh(f". {V}/env.sh && cd {wt} && go build ./{os.path.dirname(m['file'])}/")
         if b.returncode!=0:
             print(f"SKIP  {m['prop']} {m['name']}: does not compile: {b.stderr[:200]}"); bad+=1
